@@ -3,8 +3,8 @@
 (*  (1) I => P over every case (constant-level ASSUME, checked by TLC);         *)
 (*  (2) written out with JsonSerialize as the cases replayed into the real      *)
 (*      TrafficFilter (spec -> code);                                           *)
-(*  (3) non-vacuity: with a flag of FilterI set the ASSUME must fail.           *)
-EXTENDS FilterI, TLC, Json, SequencesExt
+(*  (3) non-vacuity: with a flag of TrafficFilterI set the ASSUME must fail.           *)
+EXTENDS TrafficFilterI, TLC, Json, SequencesExt
 
 D(h, kind, ip, v6, rsv) == [h |-> h, kind |-> kind, ip |-> ip, v6 |-> v6, rsv |-> rsv]
 
